@@ -311,6 +311,10 @@ func litFor(r *hx.Rng, ty string) string {
 	if n, ok := v.(int64); ok && n < 0 {
 		v = -n - 1 // SQL text has no negative literals
 	}
+	if n, ok := v.(int64); ok && r.Chance(1, 4) {
+		// decimal literals may carry leading zeros (010 is ten, 08 is eight)
+		return strings.Repeat("0", r.Range(1, 3)) + fmt.Sprint(n)
+	}
 	return sqlLit(v)
 }
 
@@ -714,6 +718,17 @@ func execConfusedQueries(d *xdb, r *hx.Rng, t1, t2 xtable) {
 	}
 	for _, q := range qs {
 		d.query(q, "judged", "confused")
+	}
+	// every LIMIT / OFFSET pair around the row count, with and without WHERE and ORDER BY
+	nr := len(t1.rows)
+	for _, lim := range []int{0, 1, nr - 1, nr, nr + 1} {
+		for _, off := range []int{0, 1, nr - 1, nr, nr + 1} {
+			if lim < 0 || off < 0 {
+				continue
+			}
+			d.query(fmt.Sprintf("SELECT * FROM t1 LIMIT %d OFFSET %d", lim, off), "judged", "confused-window")
+			d.query(fmt.Sprintf("SELECT id FROM t1 WHERE id > 0 ORDER BY id DESC LIMIT %d OFFSET %d", lim, off), "judged", "confused-window")
+		}
 	}
 	for i := 0; i < 15; i++ {
 		// type-confused predicate: any column against any literal
